@@ -500,6 +500,20 @@ def multi_dataset_results(chk: Check, col):
             files = sorted(f.name for f in (wd / "B").glob("*.nc"))
             if len(files) != len(labels):
                 col.add(key + " [files]", f"{len(labels)} datasets but data files {files}", rep)
+            # the same result saved with a data filter: EVERY dataset file holds exactly the selected variables
+            from glotaran.io.interface import SavingOptions
+            with warnings.catch_warnings():
+                warnings.simplefilter("ignore")
+                save_result(res, wd / "F" / "result.yml", saving_options=SavingOptions(data_filter=["data", "residual"], report=False))
+                filt = load_result(wd / "F" / "result.yml")
+            for l in labels:
+                got_vars = sorted(filt.data[l].data_vars) if l in filt.data else None
+                if got_vars != ["data", "residual"]:
+                    col.add(key + " [data_filter]", f"dataset {l!r} saved with data_filter=[data, residual] holds the variables {got_vars}", rep)
+                    break
+                if not W.float_bits_equal(res.data[l]["residual"].values, filt.data[l]["residual"].values):
+                    col.add(key + " [data_filter content]", f"dataset {l!r}: residual of the filtered save is not the one of the result", rep)
+                    break
         except Exception as ex:  # noqa: BLE001
             col.add(key + f" [raises {type(ex).__name__}]", str(ex)[:300], rep)
         finally:
